@@ -59,6 +59,9 @@ type Bases struct {
 	JSON  *kindOf[string]
 	EnT8  *kindOf[string]
 	EnT16 *kindOf[string]
+	// the same names under other numbers (a column re-inferred with another definition)
+	EnT8Alt  *kindOf[string]
+	EnT16Alt *kindOf[string]
 }
 
 func NewBases() *Bases {
@@ -83,9 +86,12 @@ func NewBases() *Bases {
 		Bool: boolKind(), Str: String(), FS3: FixedString(3),
 		FS16: Fixed[[16]byte]("FixedString(16)", 16, col[[16]byte, *proto.ColFixedStr16]()),
 		UUID: UUID(), Noth: Nothing(), Pt: Point(),
-		JSON:  JSONStr(),
-		EnT8:  EnumText(8, []string{"a", "bee", "", "z z"}, []int{1, 2, -128, 127}),
-		EnT16: EnumText(16, []string{"x", "yy", "neg"}, []int{0, 300, -32768}),
+		JSON: JSONStr(),
+		// (names that differ only by spaces at their edges, and a name of one space: a definition is not to be trimmed)
+		EnT8:     EnumText(8, []string{"a", "bee", "", "z z", " a", "a ", " "}, []int{1, 2, -128, 127, 3, 4, 5}),
+		EnT16:    EnumText(16, []string{"x", "yy", "neg"}, []int{0, 300, -32768}),
+		EnT8Alt:  EnumText(8, []string{"a", "bee", "", "z z", " a", "a ", " "}, []int{10, 20, 127, -128, 4, 3, 1}),
+		EnT16Alt: EnumText(16, []string{"x", "yy", "neg"}, []int{300, 0, 7}),
 	}
 }
 
